@@ -22,15 +22,19 @@ import (
 
 // Cell is one scripted value. Exactly one field is set (none = NULL).
 type Cell struct {
-	U  *uint64           `json:"u,omitempty"`
-	I  *int64            `json:"i,omitempty"`
-	F  *float64          `json:"f,omitempty"`
-	S  *string           `json:"s,omitempty"`
-	M  map[string]string `json:"m,omitempty"`
-	AS []string          `json:"as,omitempty"`
-	AI []int64           `json:"ai,omitempty"`
-	B  *string           `json:"b,omitempty"` // hex bytes delivered as a Go string
-	LL [][]string        `json:"ll,omitempty"` // Array(Tuple(String, String)) as clickhouse-go delivers it: [][]interface{}
+	U     *uint64           `json:"u,omitempty"`
+	I     *int64            `json:"i,omitempty"`
+	F     *float64          `json:"f,omitempty"`
+	S     *string           `json:"s,omitempty"`
+	M     map[string]string `json:"m,omitempty"`
+	AS    []string          `json:"as,omitempty"`
+	AI    []int64           `json:"ai,omitempty"`
+	B     *string           `json:"b,omitempty"`     // hex bytes delivered as a Go string
+	LL    [][]string        `json:"ll,omitempty"`    // Array(Tuple(String, String)) as clickhouse-go delivers it: [][]interface{}
+	T     []Cell            `json:"t,omitempty"`     // Tuple(...) as clickhouse-go delivers it: []interface{}
+	AT    [][]Cell          `json:"at,omitempty"`    // Array(Tuple(...)): [][]interface{}; an empty array is `"at":[]` + Empty
+	Empty string            `json:"empty,omitempty"` // "at" | "t": an EMPTY array / tuple of that kind (omitempty drops empty slices)
+	I8    *int64            `json:"i8,omitempty"`    // Int8
 }
 
 func (c Cell) value() driver.Value {
@@ -51,6 +55,27 @@ func (c Cell) value() driver.Value {
 		return c.AI
 	case c.B != nil:
 		return unhex(*c.B)
+	case c.I8 != nil:
+		return int8(*c.I8)
+	case c.Empty == "at":
+		return [][]interface{}{}
+	case c.Empty == "t":
+		return []interface{}{}
+	case c.T != nil:
+		res := make([]interface{}, len(c.T))
+		for i, x := range c.T {
+			res[i] = x.value()
+		}
+		return res
+	case c.AT != nil:
+		res := make([][]interface{}, len(c.AT))
+		for i, tup := range c.AT {
+			res[i] = make([]interface{}, len(tup))
+			for j, x := range tup {
+				res[i][j] = x.value()
+			}
+		}
+		return res
 	case c.LL != nil:
 		res := make([][]interface{}, len(c.LL))
 		for i, kv := range c.LL {
